@@ -25,8 +25,45 @@ def body(ctx):
     # C14_clone_shape_invariant): loops over `pairs`, `ipairs`, `next`, and script functions with names like `spairs`, `xipairs`
     outdir, meta = ctx.harness("clone", 100 if ctx.tier == "quick" else 1500)
     ctx.correspond(outdir, nontrivial_tag=lambda t: "reported" in t)
+    cli_keyword_like_names(ctx)
     ctx.notes.append(f"renamed names: {ctx.stats.get('renamed_names', 0)}, to names longer than 32 bytes: {ctx.stats.get('rename_to_long_name', 0)}, "
                      f"library-root spellings that were script-bound: {ctx.stats.get('renamed_name_is_library_root_but_script_bound', 0)}")
+
+
+def cli_keyword_like_names(ctx):
+    """through the command-line tool, whose parser follows the library's dialects: a variable spelled like a word that only OTHER
+    dialects reserve (`goto` under lua51 / luau, `continue`, `type`, `export` under luau) is an ordinary script-chosen name —
+    the file and its twin with that name replaced by a fresh one of the same length get the same diagnostics up to the name"""
+    from tools import cli
+    d = os.path.join(ctx.workdir, "keywordlike")
+    os.makedirs(d, exist_ok=True)
+    template = ("local NAME = 10\n\nlocal function advance(NAME, step)\n    return NAME + step\nend\n\n"
+                "local total = advance(1, 2, 3)\nprint(missing_value)\nfor NAME = 1, 2 do end\n")
+    for std, names in (("lua51", ["goto"]), ("luau", ["goto", "continue", "type", "export"]), ("lua52", ["continue", "export"])):
+        with open(os.path.join(d, f"cfg_{std}.toml"), "w") as fh:
+            fh.write(f'std = "{std}"\n')
+        for name in names:
+            fresh = ("zqxjvwkyh")[:len(name)].ljust(len(name), "q")
+            outs = []
+            for label, ident in (("original", name), ("twin", fresh)):
+                fname = f"{std}_{name}_{label}.lua"
+                with open(os.path.join(d, fname), "w") as fh:
+                    fh.write(template.replace("NAME", ident))
+                rc, out, err = cli.run_selene(["--config", f"cfg_{std}.toml", "--display-style", "json2", "--num-threads", "1", fname], d)
+                diags, summary, bad = cli.parse_json_lines(out)
+                canon = sorted((x.get("code"), x["primary_label"]["span"]["start"], x["primary_label"]["span"]["end"], x.get("severity"),
+                                x.get("message", "").replace(ident, "NAME"), tuple(n.replace(ident, "NAME") for n in x.get("notes", [])),
+                                tuple((l["span"]["start"], l["span"]["end"], l.get("message", "").replace(ident, "NAME")) for l in x.get("secondary_labels", []))) for x in diags)
+                outs.append((fname, canon, summary is None or "panicked" in err))
+            ctx.evaluations += 1
+            (f1, c1, bad1), (f2, c2, bad2) = outs
+            if bad1 or bad2 or c1 != c2:
+                only1 = [x for x in c1 if x not in c2][:3]
+                only2 = [x for x in c2 if x not in c1][:3]
+                ctx.violation(f"implementation violates the specification: [C14] under std = \"{std}\" a variable named `{name}` (not a reserved word of that library's dialects) and the same file with the name replaced by `{fresh}` are diagnosed differently",
+                              f"directory: {d}\nconfig: cfg_{std}.toml\nfiles: {f1} / {f2}\nonly for `{name}`: {only1}\nonly for `{fresh}`: {only2}")
+            else:
+                ctx.nontrivial.add(f"keywordlike-{std}-{name}")
 
 
 def check(ctx):
@@ -37,4 +74,4 @@ def check(ctx):
         "the full renaming-simulation theorem over the scope model is pending; the Lean file proves the lookup/declare commutation lemmas it rests on",
     ]
     return vlib.standard_check(ctx, ["Selene.Props.C14"], body,
-                               trusted=vlib.BASE_TRUST + ["harness/src/twin.rs (renamer: uses the AST dump to find variable-position tokens)", "tools/translate.py (regex extraction of the string literals lints compare names with, regenerated on every run)"], rule=RULE)
+                               trusted=vlib.BASE_TRUST + ["harness/src/twin.rs (renamer: uses the AST dump to find variable-position tokens)", "tools/translate.py (regex extraction of the string literals lints compare names with, regenerated on every run)"], rule=RULE + "; through the command-line tool: variables spelled like words only other dialects reserve (goto, continue, type, export) vs a same-length fresh name, under lua51 / lua52 / luau", need_selene=True)
